@@ -76,8 +76,10 @@ ASSIGNS()
 ENSURES(RET == (ONCURVE(P) ? 1 : 0))
 ;
 
-#ifdef CONTRACT_IS_AT_INFINITY_RECORDING
+#ifdef VERIF_CBMC
 int G_isinf_last; unsigned G_isinf_calls;
+#endif
+#ifdef CONTRACT_IS_AT_INFINITY_RECORDING
 int sm2_z256_point_is_at_infinity(const SM2_Z256_POINT *P)
 REQUIRES(RD_OK(P, sizeof(*P)))
 ASSIGNS(G_isinf_last, G_isinf_calls)
